@@ -80,7 +80,7 @@ def run(ctx):
     if T:
         mc(ctx, "Merger.tla", "MC_Merger_3l.cfg",
            "SPECIFICATION MSpec\nCONSTANTS\n  NLists = 3\n  Vals = {1, 2}\n  MaxOps = 5\n  FIXD8 = TRUE\nINVARIANT C18_MergeExact\nINVARIANT C18_NoCrash\nCHECK_DEADLOCK FALSE\n", None)
-    nodes, init, edges, nedges = graph.parse_dot(os.path.join(ctx.wd, "mgraph.dot"))
+    nodes, init, edges, nedges = graph.parse_dot(os.path.join(ctx.wd, "mgraph.dot"), next_is_action=True)  # Merger.tla has an action called Next
     os.remove(os.path.join(ctx.wd, "mgraph.dot"))
     scripts, covered, total = graph.edge_cover(init, edges, rng, None if T else 1500)
     ctx.extra["merger_graph_edges"] = total
